@@ -115,7 +115,38 @@ class _H:
             '<m:math xmlns:m="http://www.w3.org/1998/Math/MathML"><m:ci>%s</m:ci></m:math>' % ve,
             '  <math %s><piecewise><piece><cn>0</cn><apply><lt/><ci>%s</ci><cn>0</cn></apply></piece><otherwise><ci>%s</ci></otherwise></piecewise></math>  ' % (MATH_NS, ve, ve),
         ]
-        return r.choice(forms)
+        return self.decorate_math(r.choice(forms))
+
+    # XML declarations that PrinterImpl::printMath strips ("<\\?xml[[:space:]]+version=.*\\?>"): white space variants after
+    # "<?xml", pseudo-attributes, single / double quotes (math is set through the API as arbitrary text)
+    XML_DECLS = ['<?xml version="1.0"?>', '<?xml  version="1.0"?>', "<?xml\tversion='1.0'?>", '<?xml\nversion="1.0"?>',
+                 '<?xml version="1.0" encoding="UTF-8"?>', "<?xml   version='1.0' encoding='UTF-8' standalone='yes'?>",
+                 '<?xml \t version="1.0" standalone="no" ?>', '<?xml version = "1.0"?>'.replace("version =", "version="),
+                 '<?xml\r\nversion="1.1"?>']
+
+    def decorate_math(self, text):
+        """the same mathematics as other legal math STRINGS: an XML declaration in front (of the whole string, or of
+        every math element, each on its own line), blank lines, comments around the math elements"""
+        r = self.r
+        k = r.random()
+        if k < 0.45:
+            return text
+        pieces = [p for p in text.replace("</math><math", "</math>\x00<math").split("\x00")]
+        out = []
+        per_element_decl = r.random() < 0.3
+        if r.random() < 0.7:
+            out.append(r.choice(self.XML_DECLS) + r.choice(["", "\n", "\n\n", " "]))
+        for i, piece in enumerate(pieces):
+            if i > 0 and per_element_decl:
+                out.append("\n" + r.choice(self.XML_DECLS) + "\n")
+            if r.random() < 0.3:
+                out.append(r.choice(["<!-- a comment -->", "<!--c-->\n", "  <!-- x < y & z -->  "]))
+            if r.random() < 0.3:
+                out.append(r.choice(["\n", "  ", "\t\n "]))
+            out.append(piece)
+            if r.random() < 0.2:
+                out.append(r.choice(["\n<!-- trailing -->", "\n\n", " "]))
+        return "".join(out)
 
     def build(self):
         r, b = self.r, self.b
